@@ -1,10 +1,10 @@
 package props
 
 import (
-	"os"
 	"context"
 	"fmt"
 	"net"
+	"os"
 	"sort"
 	"strings"
 	"time"
@@ -15,9 +15,9 @@ import (
 
 	"github.com/datastax/cql-proxy/proxy"
 	"github.com/datastax/cql-proxy/proxycore"
-	"go.uber.org/zap"
 	"github.com/datastax/go-cassandra-native-protocol/message"
 	"github.com/datastax/go-cassandra-native-protocol/primitive"
+	"go.uber.org/zap"
 )
 
 func init() {
